@@ -96,6 +96,13 @@ theorem page_media_box (tbl : Tbl) (id : Nat) (a : Attrs) (ks : List PTree) (fue
   simp only [hi, dite_true, Out.bind_ok]
   exact media_box_nearest _
 
+/-- Totality of the model on *every* table, well-formed or not (cyclic /Parent or /Kids, dangling references,
+    lying counts): with at least as much fuel as there are objects `get_page` never runs out of fuel — the
+    recursion guard and the depth budget bound the walk, so `fuel` is never the reason for an answer. -/
+theorem get_page_never_out_of_fuel (tbl : Tbl) (keys : List Nat) (hk : ∀ r o, tbl r = some o → r ∈ keys)
+    (fuel : Nat) (hf : keys.length ≤ fuel) (root : TreeRec) (n : Nat) : getPage tbl fuel root n ≠ .oof :=
+  pageLimited_ne_oof tbl keys hk fuel hf 16 root n
+
 /-! ### Non-vacuity: a concrete file-level table satisfying the hypotheses -/
 
 def noA : Attrs := ⟨none, none, none⟩
